@@ -459,9 +459,11 @@ def check(run):
         ("sim-unl-mod", 3, ["a", "b", "c"], 0, True, True, True, 40, 30),
         ("sim-s2", 2, ["a", "b", "c", "d", "e", "f"], 2, True, False, False, 60, 40),
         ("sim-nofs", 2, ["a", "b", "c"], 1, False, False, True, 30, 30),
+        ("sim-nofs-mod-s2", 2, ["a", "b", "c", "d"], 2, False, True, True, 20, 30),
+        ("sim-s4-mod", 1, ["a", "b", "c", "d", "e", "f", "g"], 4, True, True, False, 20, 40),
     ]
     if thorough:
-        sims = [(n, nd, u, s, f, m, ap, num * 8, dp) for (n, nd, u, s, f, m, ap, num, dp) in sims]
+        sims = [(n, nd, u, s, f, m, ap, num * 16, dp) for (n, nd, u, s, f, m, ap, num, dp) in sims]
         sims.append(("sim-s4", 3, ["a", "b", "c", "d", "e", "f", "g", "h", "i", "j", "k"], 4, True, True, True, 300, 40))
     replayed = 0
     for (name, nd, uris, size, fsc, moddir, ap, num, depth) in sims:
@@ -497,9 +499,15 @@ def check(run):
         (2, ["a", "b", "c"], 1, False, False, 40, 30),
         (1, ["a", "b", "c", "d", "e", "f", "g", "h"], 2, True, True, 50, 40),
         (2, ["a", "b", "c", "d", "e", "f", "g", "h", "i", "j", "k"], 4, True, False, 30, 60),
+        # the remaining corners of filesystem_checks x collection_size x module_directory
+        (2, ["a", "b", "c"], 0, False, True, 20, 30),
+        (2, ["a", "b", "c", "d", "e", "f"], 4, False, False, 20, 40),
+        (3, ["a", "b", "c"], 1, True, True, 30, 30),
+        (1, ["a", "b", "c", "d", "e"], 2, False, True, 20, 40),
+        (3, ["a", "b"], 0, True, False, 30, 40),
     ]
     if thorough:
-        groups = [(nd, u, s, f, m, n * 6, ops) for (nd, u, s, f, m, n, ops) in groups]
+        groups = [(nd, u, s, f, m, n * 12, ops) for (nd, u, s, f, m, n, ops) in groups]
         groups.append((3, ["a", "b", "c", "d", "e", "f", "g", "h", "i", "j", "k"], 4, True, True, 300, 40))
     tid = 0
     for gi, (nd, uris, size, fsc, moddir, n, ops) in enumerate(groups):
